@@ -69,12 +69,17 @@ Ctx10(L, E, R) ==
    [src |-> "{{ " \o L \o ".raw() }}", out |-> R, c |-> "raw"],
    [src |-> "{{ v = " \o L \o " }}{{ v.raw() }}", out |-> R, c |-> "raw-var"],
    [src |-> "{{ [" \o L \o "][0].raw() }}", out |-> R, c |-> "raw-elem"],
-   [src |-> "{{ (" \o L \o " + 'x').raw() }}", out |-> R \o "x", c |-> "raw-concat"]}
+   [src |-> "{{ (" \o L \o " + 'x').raw() }}", out |-> R \o "x", c |-> "raw-concat"],
+   \* raw() gives the original text and leaves the stored literal as it was: used again it is escaped again, raw() again
+   \* gives the same text again
+   [src |-> "{{ v = " \o L \o " }}{{ v.raw() }}{{ v.raw() }}", out |-> R \o R, c |-> "raw-twice"],
+   [src |-> "{{ v = " \o L \o " }}{{ v.raw().len() > 999 ? 1 : \"\" }}[{{ v }}]", out |-> "[" \o E \o "]", c |-> "print-after-raw"],
+   [src |-> "{{ v = [" \o L \o "] }}{{ w = v[0] }}{{ w.raw().len() > 999 ? 1 : \"\" }}[{{ v[0] }}]", out |-> "[" \o E \o "]", c |-> "print-after-raw-alias"]}
 Cases10(lits) == UNION {{[src |-> c.src, out |-> c.out, c |-> c.c, lit |-> Cat(l)] : c \in Ctx10(LitSrc(l, q), Cat(Escape(l)), Cat(l))} : l \in lits, q \in {"\"", "'"}}
 \* The verdict for escaped contexts uses C10's own predicates (no raw angle bracket, every & starts an entity, quotes as
 \* written, unescaping gives the literal back), so that another entity spelling is not an alarm; `esc` is the
 \* specification's rendering, kept for diagnosis. raw() contexts must give exactly the original text.
-IsRaw(c) == c \in {"raw", "raw-var", "raw-elem", "raw-concat"}
+IsRaw(c) == c \in {"raw", "raw-var", "raw-elem", "raw-concat", "raw-twice"}
 Expect10(c) == IF IsRaw(c.c) THEN [kind |-> "out", out |-> c.out] ELSE [kind |-> "escaped", out |-> c.out, lit |-> c.lit]
 
 (* ================================ C13 ================================ *)
